@@ -2711,6 +2711,9 @@ func (f *fragment) readStorageFromArchive(r io.Reader) error {
 		return errors.Wrap(err, "opening")
 	}
 
+	// The block checksums were computed from the storage that was just replaced.
+	f.checksums = make(map[int][]byte)
+
 	return nil
 }
 
